@@ -282,7 +282,7 @@ type c13Sent struct {
 
 func TestVfC13(t *testing.T) {
 	r := vfkit.New("C13")
-	defer r.Flush(true)
+	defer r.Finish()
 	// configuration matrix: optional subsystems present or absent
 	b := r.Batch()
 	cfg := vfConfig{Media: b&1 != 0, EmailVal: b&2 != 0, Push: b&4 != 0, Calls: b&8 != 0, MaxMsgSize: 1 << 17}
